@@ -563,3 +563,23 @@ def run(ctx):
         if n < 6:
             raise AnchorMissing("expected the recognisers with a state field and a reset() (found %d)" % n)
 
+    with ctx.rule("C16.R10", "T5", "a collection read from an attribute accepts both forms the writers and the model produce", floor=2) as r:
+        # `@v(1,2)` (the items are the attribute's body) and `@v({1,2})` / the model's Attr(v, Record) (the body is one item, a record):
+        # every make_attr_recognizer that builds the first ("flattened") form of a recogniser also offers the second through FirstOf + SimpleAttrBody
+        n = 0
+        for b in f.all_bodies():
+            if b.meta.get("name") != "make_attr_recognizer" or "read::recognizer" not in b.defpath or "::tests" in b.defpath:
+                continue
+            flat = [c for c in b.calls if c.name == "new_attr" or (c.name == "new" and c.args and describe_operand(b, c.args[0]) == "True")]
+            if not flat:
+                continue
+            n += 1
+            ctx.saw(b)
+            ty = (b.meta.get("self_ty") or b.defpath).split(" as ")[0].split("::")[-1][:40]
+            both = any(c.name == "new" and "FirstOf" in c.defpath for c in b.calls) and any(c.name == "new" and "SimpleAttrBody" in c.defpath for c in b.calls)
+            r.check(both, "%s/make_attr_recognizer/both-forms" % (b.defpath.split("for ")[-1].split(">::")[0] if " for " in b.defpath else ty), where(b),
+                    "the attribute recogniser accepts the items as the attribute body or as a single record item (FirstOf + SimpleAttrBody)",
+                    "the attribute recogniser only accepts the flattened form: the writers produce `@m({..})` for any number of entries but one, and the model always presents a record, so a field of this type promoted to an attribute cannot be read back")
+        if n < 2:
+            raise AnchorMissing("expected the attribute recognisers of Vec and HashMap (found %d)" % n)
+
